@@ -10,6 +10,12 @@ def crc(b):
     return zlib.crc32(b) & 0x7fffffff
 
 
+def mkd(prefix):
+    """a scratch directory of this worker process, removed when serve() ends"""
+    import tempfile
+    return tempfile.mkdtemp(prefix="vw%d-%s" % (os.getpid(), prefix), dir=os.environ.get("VERIF_SCRATCH", "/tmp"))
+
+
 def fresh_write(path, text):
     """(re)write a file in place and make it NEWER than an index left beside it by an earlier version (pyfaidx rebuilds its
     .fai by modification time; a genome file that was updated is newer than its old index)"""
@@ -109,4 +115,7 @@ def serve(handler):
             f.write("\n")
             f.flush()
     sys.stdout.flush()
+    import glob, shutil
+    for d in glob.glob(os.path.join(os.environ.get("VERIF_SCRATCH", "/tmp"), "vw%d-*" % os.getpid())):
+        shutil.rmtree(d, ignore_errors=True)          # this worker's scratch directories (see mkd)
     os._exit(0)
